@@ -8,6 +8,7 @@
 //	T3 go f(x)        -> vrt.Go(label, func(){ f(x) })
 //	T4 channel send / receive / close / range / select -> scheduling points
 //	T5 range over a map -> deterministic (and explorable) order
+//	T6 import "sync/atomic" -> verif/vrt/vatomic (a scheduling point before every atomic operation)
 //
 // The rewrite is purely structural: no identifier of hagall is named.
 package main
@@ -34,6 +35,7 @@ const (
 	vrtPath   = "verif/vrt"
 	vsyncPath = "verif/vrt/vsync"
 	vtimePath = "verif/vrt/vtime"
+	vatomPath = "verif/vrt/vatomic"
 )
 
 type pkgSpec struct {
@@ -208,6 +210,8 @@ func (r *rewriter) rewrite() error {
 			r.setImport(imp, vsyncPath, "sync")
 		case p == "time" && r.spec.time:
 			r.setImport(imp, vtimePath, "time")
+		case p == "sync/atomic" && r.spec.full:
+			r.setImport(imp, vatomPath, "atomic")
 		}
 	}
 	if r.spec.full {
@@ -326,8 +330,15 @@ func (r *rewriter) inComm(c *astutil.Cursor) bool {
 func (r *rewriter) rewriteGo(c *astutil.Cursor, g *ast.GoStmt, fn string) {
 	ord := r.goOrd[fn]
 	r.goOrd[fn] = ord + 1
-	label := &ast.BasicLit{Kind: token.STRING, Value: strconv.Quote(fmt.Sprintf("%s#%d", fn, ord))}
 	call := g.Call
+	callee := ""
+	switch f := call.Fun.(type) {
+	case *ast.SelectorExpr:
+		callee = ":" + f.Sel.Name
+	case *ast.Ident:
+		callee = ":" + f.Name
+	}
+	label := &ast.BasicLit{Kind: token.STRING, Value: strconv.Quote(fmt.Sprintf("%s#%d%s", fn, ord, callee))}
 	var stmts []ast.Stmt
 	var fun ast.Expr = call.Fun
 	if _, isLit := call.Fun.(*ast.FuncLit); !isLit {
